@@ -96,6 +96,7 @@ def process_twin(rng, rel, kinds):
         sb["mix"] = swapped_mixture(sc["mix"])
         sb["x0"] = 1.0 - sc["x0"]
         pb = pv.Pervaporation(membrane=sc["membrane"], mixture=sb["mix"])
+        derive = rng.random() < 0.3        # the twin object is DERIVED from the one that makes the first run (after that run)
     elif rel == "rebase":
         c = pv.Composition(p=sc["x0"], type=sc["basis"])
         other = c.to_molar(sc["mix"]) if sc["basis"] == "weight" else c.to_weight(sc["mix"])
@@ -106,7 +107,15 @@ def process_twin(rng, rel, kinds):
             om = gen.some_mixture(rng, p_builtin=0.6)
             po = pv.Pervaporation(membrane=rp.make_membrane(rng, om), mixture=om)
             (sc if sc["basis"] == "molar" else sb)["preuse"] = po
-    ra, rb = rp.run_process(perv, sc), rp.run_process(pb, sb)
+    ra = rp.run_process(perv, sc)
+    if rel == "swap" and derive:
+        import attr
+        if rng.random() < 0.5:
+            pb = attr.evolve(perv, mixture=sb["mix"])
+        else:
+            pb = copy.copy(perv)
+            pb.mixture = sb["mix"]
+    rb = rp.run_process(pb, sb)
     tr = [{"ev": "TwinStart", "level": "process", "rel": rel, "kfac": F(k), "kind": sc["kind"], "mode": sc["mode"],
            "model": sc["model"], "probe": False, "N": sc["N"], "hasProg": sc["prog"] is not None, "mixname": sc["mix"].name, "kpow2": kpow2,
            "d3": d3_probe(sc["mix"], rng) if (rel == "swap" and sc["model"] == "UNIQUAC") else [],
@@ -141,7 +150,8 @@ def solver_args(rng, mix):
     return {"T": T, "mode": mode, "Tperm": rng.uniform(200.0, T - 25.0) if mode == "temp" else None,
             "pperm": rng.uniform(0.0, 3.0) if mode == "press" else None,
             "P1": gen.logu(rng, 1e-4, 1.0), "P2": gen.logu(rng, 1e-4, 1.0), "prec": rng.choice([5e-5, 1e-6, 1e-7]),
-            "xw": rng.uniform(0.03, 0.97)}
+            # (now and then a feed with only a trace - parts per million and less - of one component)
+            "xw": rng.uniform(0.03, 0.97) if rng.random() < 0.9 else rng.choice([gen.logu(rng, 1e-9, 1e-4), 1.0 - gen.logu(rng, 1e-9, 1e-4)])}
 
 
 def function_twins(rng, rel):
@@ -152,7 +162,7 @@ def function_twins(rng, rel):
     a = solver_args(rng, mix)
     pa = pv.Pervaporation(membrane=membrane, mixture=mix)
     out = {"ev": "FnTwin", "rel": rel, "model": model, "probe": False, "mode": a["mode"], "mixname": mix.name,
-           "M1": F(mix.first_component.molecular_weight), "M2": F(mix.second_component.molecular_weight),
+           "M1": F(mix.first_component.molecular_weight), "M2": F(mix.second_component.molecular_weight), "xw": F(a["xw"]),
            "d3": d3_probe(mix, rng) if (rel == "swap" and model == "UNIQUAC") else []}
     ca = pv.Composition(p=a["xw"], type="weight")
     if rel == "swap":
